@@ -18,10 +18,11 @@ VERIF = os.path.dirname(os.path.dirname(os.path.abspath(__file__)))
 REPO = os.environ.get("PRECIS_REPO", "/repo")
 DRIVER = os.path.join(VERIF, "driver", "target", "release", "precis-mirdump")
 CACHE = os.path.join(VERIF, ".facts")
+FACTS_VERSION = "2"
 
 # floors: number of bodies counted on the pinned tree (minus a margin for legitimate shrinkage);
 # an export below the floor means the driver did not see the crate and every check fails closed.
-BODY_FLOORS = {"precis_core": 150, "precis_profiles": 100, "precis_tools": 120}
+BODY_FLOORS = {"precis_core": 150, "precis_profiles": 100, "precis_tools": 120, "pv_positive": 15}
 
 
 class FactsError(Exception):
@@ -44,12 +45,14 @@ def repo_hash(repo=REPO):
         h.update(os.path.relpath(p, repo).encode())
         h.update(b"\0")
         h.update(hashlib.sha256(data).digest())
-    # the driver itself is part of the key
-    try:
-        with open(DRIVER, "rb") as fh:
-            h.update(hashlib.sha256(fh.read()).digest())
-    except OSError:
-        pass
+    # the driver itself and the positive-control source are part of the key
+    for extra in (DRIVER, os.path.join(VERIF, "witness", "positive.rs")):
+        try:
+            with open(extra, "rb") as fh:
+                h.update(hashlib.sha256(fh.read()).digest())
+        except OSError:
+            pass
+    h.update(FACTS_VERSION.encode())
     return h.hexdigest()[:24]
 
 
@@ -93,6 +96,21 @@ def export(repo, out_dir, all_targets=False, release=False):
         shutil.rmtree(target, ignore_errors=True)
     if p.returncode != 0:
         raise FactsError("cargo check of %s failed (the tree does not compile?):\n%s" % (repo, p.stdout[-4000:]))
+    # positive controls: compiled by the same driver (plain rustc invocation, std only)
+    pos = os.path.join(VERIF, "witness", "positive.rs")
+    tmpd = tempfile.mkdtemp(prefix="pv-pos-", dir=os.environ.get("PV_SCRATCH", "/var/tmp"))
+    try:
+        q = subprocess.run(
+            [DRIVER, "rustc", "--edition", "2021", "--crate-type", "lib", "--crate-name", "pv_positive", "--emit=metadata", "-Zmir-opt-level=0", "-Awarnings", "--out-dir", tmpd, pos],
+            env=dict(env, RUSTUP_TOOLCHAIN="nightly"),
+            stdout=subprocess.PIPE,
+            stderr=subprocess.STDOUT,
+            text=True,
+        )
+        if q.returncode != 0:
+            raise FactsError("positive-control crate failed to compile:\n%s" % q.stdout[-3000:])
+    finally:
+        shutil.rmtree(tmpd, ignore_errors=True)
     with open(os.path.join(out_dir, "export.log"), "w") as fh:
         fh.write(p.stdout)
         fh.write("\nexport wall_s=%.1f\n" % (time.time() - t0))
